@@ -115,9 +115,9 @@ package cgroup
 //@ func pkg/cgroup.(*V2).WriteUint props C20
 //@   arith int
 //@   requires c != nil
-//@   assigns X.n, X.dir, X.file, X.val
-//@   abstracts result == nil ==> X.n == old(X.n) + 1 && X.dir == c.path && X.file == filename && X.val == i
-//@   abstracts result != nil ==> X.n == old(X.n)
+//@   assigns X.n, X.dir, X.file, X.val, X.pdir, X.pfile, X.pval
+//@   abstracts result == nil ==> X.n == old(X.n) + 1 && X.dir == c.path && X.file == filename && X.val == i && X.pdir == old(X.dir) && X.pfile == old(X.file) && X.pval == old(X.val)
+//@   abstracts result != nil ==> X.n == old(X.n) && X.dir == old(X.dir) && X.file == old(X.file) && X.val == old(X.val)
 
 // v2: memory in bytes from memory.current / memory.peak, process count from pids.peak, CPU time in ns =
 // usage_usec of cpu.stat times 1000; limits go to memory.max / pids.max with the value given
@@ -139,12 +139,12 @@ package cgroup
 //@ func pkg/cgroup.(*V2).SetMemoryLimit props C20
 //@   arith int
 //@   requires c != nil && c.control != nil
-//@   assigns X.n, X.dir, X.file, X.val
+//@   assigns X.n, X.dir, X.file, X.val, X.pdir, X.pfile, X.pval
 //@   ensures result == nil ==> X.n == old(X.n) + 1 && X.dir == c.path && X.file == "memory.max" && X.val == l
 //@ func pkg/cgroup.(*V2).SetProcLimit props C20
 //@   arith int
 //@   requires c != nil && c.control != nil
-//@   assigns X.n, X.dir, X.file, X.val
+//@   assigns X.n, X.dir, X.file, X.val, X.pdir, X.pfile, X.pval
 //@   ensures result == nil ==> X.n == old(X.n) + 1 && X.dir == c.path && X.file == "pids.max" && X.val == l
 //@ func pkg/cgroup.(*V2).CPUUsage props C20
 //@   arith bv
@@ -173,9 +173,9 @@ package cgroup
 //@ func pkg/cgroup.(*v1controller).WriteUint props C20
 //@   arith int
 //@   nilsafe
-//@   assigns X.n, X.dir, X.file, X.val
-//@   abstracts result == nil && c != nil && len(c.path) != 0 ==> X.n == old(X.n) + 1 && X.dir == c.path && X.file == filename && X.val == i
-//@   abstracts !(result == nil && c != nil && len(c.path) != 0) ==> X.n == old(X.n)
+//@   assigns X.n, X.dir, X.file, X.val, X.pdir, X.pfile, X.pval
+//@   abstracts result == nil && c != nil && len(c.path) != 0 ==> X.n == old(X.n) + 1 && X.dir == c.path && X.file == filename && X.val == i && X.pdir == old(X.dir) && X.pfile == old(X.file) && X.pval == old(X.val)
+//@   abstracts !(result == nil && c != nil && len(c.path) != 0) ==> X.n == old(X.n) && X.dir == old(X.dir) && X.file == old(X.file) && X.val == old(X.val)
 
 // v1: CPU time in ns straight from cpuacct.usage; memory in bytes from memory.usage_in_bytes /
 // memory.max_usage_in_bytes; limits to memory.limit_in_bytes / pids.max. A limit call that returns nil
@@ -198,12 +198,12 @@ package cgroup
 //@ func pkg/cgroup.(*V1).SetMemoryLimit props C20
 //@   arith int
 //@   requires c != nil
-//@   assigns X.n, X.dir, X.file, X.val
+//@   assigns X.n, X.dir, X.file, X.val, X.pdir, X.pfile, X.pval
 //@   ensures result == nil ==> X.n == old(X.n) + 1 && c.memory != nil && X.dir == c.memory.path && X.file == "memory.limit_in_bytes" && X.val == i
 //@ func pkg/cgroup.(*V1).SetProcLimit props C20
 //@   arith int
 //@   requires c != nil
-//@   assigns X.n, X.dir, X.file, X.val
+//@   assigns X.n, X.dir, X.file, X.val, X.pdir, X.pfile, X.pval
 //@   ensures result == nil ==> X.n == old(X.n) + 1 && c.pids != nil && X.dir == c.pids.path && X.file == "pids.max" && X.val == i
 
 // adding pids: exactly the given pids are written to this group's own cgroup.procs
@@ -251,3 +251,123 @@ package cgroup
 //@   loop 0: invariant (fresh(v1.all) && sep(v1, elemaddr(v1.all, 0)) && sep(elemaddr(slicelit, 0), elemaddr(v1.all, 0))) || cap(v1.all) == 0
 //@   loop 0: invariant forall k int :: 0 <= k && k < len(v1.all) ==> v1.all[k] != nil && fresh(v1.all[k]) && allocated(v1.all[k])
 //@   loop 0: invariant forall k int :: 0 <= k && k < len(v1.all) ==> G.made[v1.all[k].path]
+
+// ---- the remaining limit setters (C20: the limit written is the limit asked for, in the documented file) ----
+// v1 CPU bandwidth is two files of the cpu controller: quota first, then period, each with the value given;
+// a nil result means both were written (the missing-controller case is the known finding of SetMemoryLimit).
+//@ func pkg/cgroup.(*V1).SetCPUCfsQuota props C20
+//@   arith int
+//@   requires c != nil
+//@   assigns X.n, X.dir, X.file, X.val, X.pdir, X.pfile, X.pval
+//@   ensures result == nil && c.cpu != nil && len(c.cpu.path) != 0 ==> X.n == old(X.n) + 1 && X.dir == c.cpu.path && X.file == "cpu.cfs_quota_us" && X.val == p && X.pdir == old(X.dir) && X.pfile == old(X.file) && X.pval == old(X.val)
+//@   ensures !(result == nil && c.cpu != nil && len(c.cpu.path) != 0) ==> X.n == old(X.n) && X.dir == old(X.dir) && X.file == old(X.file) && X.val == old(X.val)
+//@ func pkg/cgroup.(*V1).SetCPUCfsPeriod props C20
+//@   arith int
+//@   requires c != nil
+//@   assigns X.n, X.dir, X.file, X.val, X.pdir, X.pfile, X.pval
+//@   ensures result == nil && c.cpu != nil && len(c.cpu.path) != 0 ==> X.n == old(X.n) + 1 && X.dir == c.cpu.path && X.file == "cpu.cfs_period_us" && X.val == p && X.pdir == old(X.dir) && X.pfile == old(X.file) && X.pval == old(X.val)
+//@   ensures !(result == nil && c.cpu != nil && len(c.cpu.path) != 0) ==> X.n == old(X.n) && X.dir == old(X.dir) && X.file == old(X.file) && X.val == old(X.val)
+//@ func pkg/cgroup.(*V1).SetCPUBandwidth props C20
+//@   arith int
+//@   requires c != nil
+//@   assigns X.n, X.dir, X.file, X.val, X.pdir, X.pfile, X.pval
+//@   ensures result == nil && c.cpu != nil && len(c.cpu.path) != 0 ==> X.n == old(X.n) + 2 && X.pdir == c.cpu.path && X.pfile == "cpu.cfs_quota_us" && X.pval == quota && X.dir == c.cpu.path && X.file == "cpu.cfs_period_us" && X.val == period
+//@ func pkg/cgroup.(*V1).SetCpuacctUsage props C20
+//@   arith int
+//@   requires c != nil
+//@   assigns X.n, X.dir, X.file, X.val, X.pdir, X.pfile, X.pval
+//@   ensures result == nil && c.cpuacct != nil && len(c.cpuacct.path) != 0 ==> X.n == old(X.n) + 1 && X.dir == c.cpuacct.path && X.file == "cpuacct.usage" && X.val == i
+//@ func pkg/cgroup.(*V1).SetMemoryMaxUsageInBytes props C20
+//@   arith int
+//@   requires c != nil
+//@   assigns X.n, X.dir, X.file, X.val, X.pdir, X.pfile, X.pval
+//@   ensures result == nil && c.memory != nil && len(c.memory.path) != 0 ==> X.n == old(X.n) + 1 && X.dir == c.memory.path && X.file == "memory.max_usage_in_bytes" && X.val == i
+//@ func pkg/cgroup.(*V1).SetMemoryMemswLimitInBytes props C20
+//@   arith int
+//@   requires c != nil
+//@   assigns X.n, X.dir, X.file, X.val, X.pdir, X.pfile, X.pval
+//@   ensures result == nil && c.memory != nil && len(c.memory.path) != 0 ==> X.n == old(X.n) + 1 && X.dir == c.memory.path && X.file == "memory.memsw.limit_in_bytes" && X.val == i
+//@ func pkg/cgroup.(*V1).MemoryMemswMaxUsageInBytes props C20
+//@   arith int
+//@   requires c != nil
+//@   assigns nothing
+//@   ensures result.1 == nil ==> c.memory != nil && result.0 == cgval(c.memory.path, "memory.memsw.max_usage_in_bytes")
+//@ func pkg/cgroup.(*V1).ProcessPeak props C20
+//@   arith int
+//@   assigns nothing
+//@   ensures result.1 != nil
+// cpuset files: written through WriteFile, which refuses a missing controller
+//@ func pkg/cgroup.(*V1).SetCPUSet props C20
+//@   arith int
+//@   requires c != nil
+//@   assigns nothing
+//@   ensures (c.cpuset == nil || len(c.cpuset.path) == 0) ==> result != nil
+//@   callsite (*v1controller).WriteFile: assert @C20 name == "cpuset.cpus" && content == b
+//@ func pkg/cgroup.(*V1).SetCpusetMems props C20
+//@   arith int
+//@   requires c != nil
+//@   assigns nothing
+//@   ensures (c.cpuset == nil || len(c.cpuset.path) == 0) ==> result != nil
+//@   callsite (*v1controller).WriteFile: assert @C20 name == "cpuset.mems" && content == b
+// v2: cpu.max takes "<quota> <period>" in one write; cpuset.cpus the bytes given; both refused without the controller
+//@ macro text_is(b, s) = len(b) == len(s) && forall q int :: 0 <= q && q < len(b) ==> b[q] == s[q]
+//@ func pkg/cgroup.(*V2).SetCPUBandwidth props C20
+//@   arith int
+//@   requires c != nil && c.control != nil
+//@   assigns nothing
+//@   ensures !c.control.CPU ==> result != nil
+//@   callsite (*V2).WriteFile: assert @C20 name == "cpu.max" && text_is(content, utoa(quota) + " " + utoa(period))
+//@ func pkg/cgroup.(*V2).SetCPUSet props C20
+//@   arith int
+//@   requires c != nil && c.control != nil
+//@   assigns nothing
+//@   ensures !c.control.CPUSet ==> result != nil
+//@   callsite (*V2).WriteFile: assert @C20 name == "cpuset.cpus" && content == caller_content
+// v1 handle: pids are listed from, and the group is entered through, its own controller directories
+//@ func pkg/cgroup.(*V1).Processes props C20
+//@   arith int
+//@   requires c != nil && forall k int :: 0 <= k && k < len(c.all) ==> c.all[k] != nil
+//@   assigns nothing
+//@   callsite ReadProcesses: assert @C20 path == joined(c.all[0].path, "cgroup.procs")
+//@ func pkg/cgroup.(*V1).AddProc props C20
+//@   arith int
+//@   requires c != nil && forall k int :: 0 <= k && k < len(c.all) ==> c.all[k] != nil
+//@   assigns FC.closed
+//@   loop 0: invariant -1 <= rangeindex && rangeindex < len(c.all)
+
+// ---- newV1 (cgroup.New on the v1 hierarchy): the per-controller step keeps the invariant that every
+// directory listed in the handle's `all` (the ones Destroy and the error clean-up rmdir) was created by this
+// call; a controller directory that existed already is never listed ----
+//@ func pkg/cgroup.CreateV1ControllerPath props C20
+//@   arith int
+//@   assume os.ErrExist != nil
+//@   assigns G.made
+//@   ensures result.1 == nil ==> G.made == old(G.made)[result.0 := true]
+//@   ensures result.1 != nil ==> G.made == old(G.made)
+//@ func pkg/cgroup.newV1Controller props C20
+//@   arith int
+//@   assigns nothing
+//@   ensures result != nil && fresh(result) && result.path == p
+//@ func pkg/cgroup.newV1$1 props C20
+//@   arith int
+//@   requires v1 != nil && forall k int :: 0 <= k && k < len(v1.all) ==> v1.all[k] != nil
+//@   assigns G.rmdir
+//@   loop 0: invariant -1 <= rangeindex && rangeindex < len(v1.all)
+//@ func pkg/cgroup.newV1$2 props C20
+//@   arith int
+//@   requires v1 != nil && cg != nil && cg != addrof(v1)
+//@   requires cap(v1.all) == 0 || sep(cg, elemaddr(v1.all, 0))
+//@   assigns G.made, deref(cg), v1.all, v1.existing
+//@   ensures len(v1.all) == old(len(v1.all)) || len(v1.all) == old(len(v1.all)) + 1
+//@   ensures len(v1.all) > old(len(v1.all)) ==> result == nil && v1.all[len(v1.all)-1] != nil && G.made[v1.all[len(v1.all)-1].path]
+//@   ensures v1.existing && !old(v1.existing) ==> len(v1.all) == 0
+
+// OpenExisting on the v1 hierarchy: success means a handle (marked existing, so that Destroy never removes
+// the group it was opened on)
+//@ func pkg/cgroup.loopV1Controllers
+//@   assumed "calls f for each requested controller (callback verified on its own: newV1$2)"
+//@   pure
+//@ func pkg/cgroup.openExistingV1 props C20
+//@   arith int
+//@   requires ct != nil
+//@   ensures result.1 == nil ==> result.0 != nil && ref_as(result.0, V1) != nil && ref_as(result.0, V1).existing
